@@ -12,6 +12,7 @@ import (
 	"encoding/json"
 	"net/http"
 	"reflect"
+	"regexp"
 	"testing"
 	"time"
 
@@ -35,6 +36,7 @@ type c09fURL struct {
 	Exact     string   `json:"exact"`
 	Prefix    string   `json:"prefix"`
 	RegEx     string   `json:"regex"`
+	Empty     bool     `json:"empty,omitempty"`
 	PolicyRef string   `json:"policyRef"`
 }
 
@@ -70,7 +72,11 @@ type c09fObs struct {
 	Prev    []int     `json:"prev"`              // the previous generation's pointers after the hand-over
 	ParsedT []int64   `json:"parsedT,omitempty"` // oracle: time.ParseDuration per policy of the new spec
 	ParsedP []int64   `json:"parsedP,omitempty"`
-	Matches []bool    `json:"matches,omitempty"` // oracle: URLRule.Match per rule
+	Matches []bool    `json:"matches,omitempty"` // what URLRule.Match answered per rule
+	ReOra   []bool    `json:"reOra,omitempty"`   // oracle (standard library, not urlrule): regexp.MatchString(rule.RegEx, path) per rule
+	Empties []bool    `json:"empties,omitempty"` // rule.URL.Empty per rule
+	Method  string    `json:"method,omitempty"`
+	Path    string    `json:"path"` // req.URL.Path as the filter sees it
 	Result  string    `json:"result"`
 	Status  int       `json:"status"` // 0 = no output response set
 	Header  string    `json:"header,omitempty"`
@@ -83,7 +89,7 @@ func (s *c09fSpec) build() *Spec {
 	}
 	for _, u := range s.URLs {
 		sp.URLs = append(sp.URLs, &URLRule{URLRule: urlrule.URLRule{
-			Methods: u.Methods, URL: urlrule.StringMatch{Exact: u.Exact, Prefix: u.Prefix, RegEx: u.RegEx}, PolicyRef: u.PolicyRef}})
+			Methods: u.Methods, URL: urlrule.StringMatch{Exact: u.Exact, Prefix: u.Prefix, RegEx: u.RegEx, Empty: u.Empty}, PolicyRef: u.PolicyRef}})
 	}
 	return sp
 }
@@ -191,8 +197,15 @@ func (w *c09fWorld) step(st c09fStep) (obs c09fObs) {
 		req, _ := httpprot.NewRequest(stdr)
 		ctx := context.New(nil)
 		ctx.SetInputRequest(req)
+		obs.Method, obs.Path = stdr.Method, stdr.URL.Path
 		for _, u := range w.cur.spec.URLs {
 			obs.Matches = append(obs.Matches, u.Match(stdr))
+			ok := false
+			if u.URL.RegEx != "" {
+				ok, _ = regexp.MatchString(u.URL.RegEx, stdr.URL.Path)
+			}
+			obs.ReOra = append(obs.ReOra, ok)
+			obs.Empties = append(obs.Empties, u.URL.Empty)
 		}
 		obs.Result = w.cur.Handle(ctx)
 		if r := ctx.GetOutputResponse(); r != nil {
@@ -227,7 +240,7 @@ func c09fExec(raw json.RawMessage) interface{} {
 	return out
 }
 
-var c09fPaths = []string{"/a", "/a/b", "/ab", "/b", "/", "/c/x"}
+var c09fPaths = []string{"/a", "/a/b", "/ab", "/b", "/", "/c/x", "", "/a"}
 
 func c09fGenSpec(r *verifh.Rand, base *c09fSpec) *c09fSpec {
 	s := &c09fSpec{}
@@ -322,6 +335,10 @@ func c09fMethods(r *verifh.Rand) []string {
 
 func c09fGenURL(r *verifh.Rand) c09fURL {
 	u := c09fURL{Methods: c09fMethods(r), PolicyRef: r.Pick("", "", "p0", "p1")}
+	if r.Bool(1, 9) { // only the empty path
+		u.Empty = true
+		return u
+	}
 	switch r.Intn(4) {
 	case 0:
 		u.Exact = r.Pick("/a", "/b", "/a/b")
